@@ -338,23 +338,53 @@ class CBarrier:
         self.s = sched
         self.parties = parties
         self.label = label
-        self.state = 0        # 0 filling, 1 draining
+        self.state = 0        # 0 filling, 1 draining, -1 resetting, -2 broken
         self.count = 0
         self.generation = 0
 
+    @property
+    def n_waiting(self) -> int:
+        return self.count if self.state == 0 else 0
+
+    @property
+    def broken(self) -> bool:
+        return self.state == -2
+
     def wait(self, timeout=None) -> int:
-        self.s.yield_point('bar.enter', self, lambda: self.state == 0)
+        import threading as _t
+        self.s.yield_point('bar.enter', self, lambda: self.state in (0, -2))
+        if self.state == -2:
+            raise _t.BrokenBarrierError
         index = self.count
         self.count += 1
         if index + 1 == self.parties:
             self.state = 1                     # release
         else:
-            self.s.yield_point('bar.wait', self, lambda: self.state == 1)
+            self.s.yield_point('bar.wait', self, lambda: self.state != 0)
+            if self.state in (-1, -2):         # reset() / abort() while waiting
+                self.count -= 1
+                if self.count == 0 and self.state == -1:
+                    self.state = 0
+                raise _t.BrokenBarrierError
         self.count -= 1
         if self.count == 0:
             self.state = 0
             self.generation += 1
         return index
+
+    def reset(self) -> None:
+        self.s.yield_point('bar.reset', self)
+        if self.count > 0:
+            if self.state == 0:
+                self.state = -1                # waiters will raise
+            elif self.state == -2:
+                self.state = -1
+        else:
+            self.state = 0
+
+    def abort(self) -> None:
+        self.s.yield_point('bar.abort', self)
+        self.state = -2
 
 
 class CQueue:
@@ -466,20 +496,22 @@ class FakeSocket:
     # server side
     def bind(self, addr) -> None:
         self.addr = addr
+        self.port = addr[1]
 
     def listen(self, n=0) -> None:
         self.listening = True
         self.net.listener = self
 
     def accept(self):
-        self.net.sched.yield_point('accept', self, lambda: len(self.net.backlog) > 0)
-        c = self.net.backlog.popleft()
+        bl = self.net.backlog_of(getattr(self, 'port', 0))
+        self.net.sched.yield_point('accept', self, lambda: len(bl) > 0)
+        c = bl.popleft()
         self.net.accepted.append(c)
         return c, ('127.0.0.1', 0)
 
     # client side
     def connect(self, addr) -> None:
-        self.conn = self.net.connect()
+        self.conn = self.net.connect(addr[1] if isinstance(addr, tuple) else 0)
 
     def recv(self, n, *a):
         return self.conn.recv(n)
@@ -508,7 +540,7 @@ class FakeNet:
 
     def __init__(self, sched: Sched):
         self.sched = sched
-        self.backlog: collections.deque = collections.deque()
+        self.backlogs: Dict[int, collections.deque] = {}
         self.accepted: List[FakeConn] = []
         self.client_ends: List[FakeConn] = []
         self.server_ends: List[FakeConn] = []
@@ -518,15 +550,19 @@ class FakeNet:
     def socket(self, *a, **k) -> FakeSocket:
         return FakeSocket(self)
 
-    def connect(self) -> FakeConn:
+    def backlog_of(self, port) -> collections.deque:
+        return self.backlogs.setdefault(port, collections.deque())
+
+    def connect(self, port: int = 2000) -> FakeConn:
         self.nconn += 1
         c2s, s2c = Pipe(), Pipe()
         cl = FakeConn(self.sched, s2c, c2s, f'conn{self.nconn}.client', self)
         sv = FakeConn(self.sched, c2s, s2c, f'conn{self.nconn}.server', self)
         cl.peer, sv.peer = sv, cl
+        cl.port = sv.port = port
         self.client_ends.append(cl)
         self.server_ends.append(sv)
-        self.backlog.append(sv)
+        self.backlog_of(port).append(sv)
         return cl
 
 
@@ -575,6 +611,21 @@ class World:
         self._set(smod, 'time', FakeTime(sched))
         self._set(imod, 'socket', self.net)
         self._set(cmod, 'print', lambda *a, **k: None)
+        # an interrupt of "the main thread" is an interrupt of the thread that
+        # runs Server.run, not of the harness
+        import _thread
+        import signal as _signal
+
+        def interrupt_main(*a, **k):
+            me = sched.me()
+            tgt = next((t for t in sched.threads if t.name.startswith('main') and t.state != 'done'), None)
+            if tgt is None:
+                return
+            if tgt is me:
+                raise KeyboardInterrupt()
+            sched.inject[(tgt.name, tgt.npoints + 1)] = KeyboardInterrupt()
+        self._set(_thread, 'interrupt_main', interrupt_main)
+        self._set(_signal, 'raise_signal', lambda *a, **k: interrupt_main())
         PT = smod.PlayerThread
 
         def start(pt):
@@ -588,6 +639,10 @@ class World:
             return pt._baton.state != 'done'
 
         def join(pt, timeout=None):
+            if timeout is not None:
+                # a bounded wait may give up at any moment the scheduler likes
+                sched.yield_point('join.timeout', None)
+                return
             sched.yield_point('join', None, lambda: pt._baton.state == 'done')
         self._set(PT, 'start', start)
         self._set(PT, 'is_alive', is_alive)
